@@ -134,7 +134,7 @@ def handle (d : DState) (line : String) : DState × String :=
       | some F, some n, some im =>
         match parseRows F (kvD args "rows" "-") with
         | none => bad
-        | some rows => doOp d (.refine n rows im)
+        | some rows => doOp d (.refine n rows im (kvD args "srt" "0" == "1"))
       | _, _, _ => bad
     | "RECLUSTER" =>
       match (kv args "it").bind String.toNat?, (kv args "extra").bind parseRat,
@@ -332,6 +332,54 @@ def handle (d : DState) (line : String) : DState × String :=
           let tr := ";".intercalate ((skTransform centers X).map showRats)
           (d, "labels=[" ++ lab ++ "] centers=[" ++ ",".intercalate (centers.map rowToHex) ++ "] predict=[" ++ pred ++ "] transform=[" ++ tr ++ "]")
       | _, _ => bad
+    | "CXX" =>
+      -- the transcription of csrc/similarity.cpp (BBModel/Kernels.lean) on raw packed bytes
+      let flag (k : String) : Bool := kvD args k "0" == "1"
+      let rows? : Option (List (List Nat)) := (splitList "," (kvD args "rows" "-")).mapM hexToBytes
+      let nf? : Option (Option Nat) :=
+        let s := kvD args "nf" "-"
+        if s == "-" then some none else s.toNat?.map some
+      let showFault : BB.Cxx.Fault → String
+        | .throws => "err"
+        | .oob => "undef"
+      match kv args "op" with
+      | some "popcount" =>
+        match rows? with
+        | some rows => (d, showNats " " (BB.Cxx.popcount2d (flag "aligned") rows))
+        | none => bad
+      | some "unpack" =>
+        match rows?, nf? with
+        | some rows, some nf =>
+          match BB.Cxx.unpack2d rows nf with
+          | .ok out => (d, ",".intercalate (out.map bytesToHex))
+          | .error f => (d, showFault f)
+        | _, _ => bad
+      | some "centroid" =>
+        match (kv args "n").bind String.toInt?, (kv args "ks").bind (parseNats ",") with
+        | some n, some ks =>
+          match BB.Cxx.centroidFromSum ks n (flag "pack") with
+          | .ok out => (d, bytesToHex out)
+          | .error f => (d, showFault f)
+        | _, _ => bad
+      | some "isim" =>
+        match (kv args "n").bind String.toInt?, (kv args "ks").bind (parseNats ",") with
+        | some n, some ks => (d, showOptRat (BB.Cxx.isimFromSum ks n))
+        | _, _ => bad
+      | some "arrvec" =>
+        match rows?, (kv args "y").bind hexToBytes with
+        | some rows, some y =>
+          match BB.Cxx.arrVec (flag "aligned") rows y with
+          | .ok out => (d, showRats out)
+          | .error f => (d, showFault f)
+        | _, _ => bad
+      | some "dissim" =>
+        match rows?, nf? with
+        | some rows, some nf =>
+          match BB.Cxx.mostDissimilar (flag "aligned") rows nf with
+          | .ok (i1, i2, s1, s2) => (d, s!"{i1} {i2} {showRats s1} {showRats s2}")
+          | .error f => (d, showFault f)
+        | _, _ => bad
+      | _ => bad
     | "MINSAFE" =>
       match (kv args "n").bind String.toNat? with
       | some n => (d, match minSafe? n with | some w => w.name | none => "err:ValueError")
